@@ -4,7 +4,7 @@ from __future__ import annotations
 import ast
 from typing import Dict, List, Optional, Set, Tuple
 
-from ..core import Collector, guarded, norm, Unrecognised, AnchorMissing
+from ..core import Collector, guarded, acquire_grammar, norm, Unrecognised, AnchorMissing
 from ..grammar import (G, Action, named_nodes, names_inner, names_out, walk, flatten_and, action_reads, positional_reads,
                        value_action, save_as_list)
 from .. import gtools as gt
@@ -190,7 +190,7 @@ class ActionSim:
 
 def run(ctx, col: Collector):
     idx = ctx.idx
-    gm = ctx.grammar
+    gm = acquire_grammar(ctx, col, 'C14-grammar')
     pm = gt.parent_map(gm.all_roots())
 
     # ---------------------------------------------------------------- C14-capture
@@ -515,6 +515,30 @@ def run(ctx, col: Collector):
                               f'{a.name} reads `{norm(pos[0])}` by position but its rule ({g.file}:{g.line}) lets a comment token into the token list',
                               node=_N(g), file=g.file)
         col.floor('C14-inert', 'named elements / positional consumers', n, 60)
+        # sibling rule: the comment token is the same language wherever comments are accepted (suppressed or captured)
+        descs: Dict[Tuple, G] = {}
+        ntok = 0
+        for g in gm.reachable():
+            if g.kind in ('first', 'or', 'regex'):
+                f = gt.comment_forms(g)
+                if f is not None:
+                    ntok += 1
+                    descs.setdefault(tuple(sorted(f)), g)
+        col.floor('C14-inert', 'comment token occurrences', ntok, 3)
+        if len(descs) > 1:
+            items = sorted(descs.items(), key=lambda kv: (kv[1].module, kv[1].line))
+            a, b = items[0], items[1]
+            col.bad('C14-inert', 'comment-token:same-everywhere',
+                    f'the grammar uses different comment tokens in different places: {a[1].var or a[1].label()} at {a[1].file}:{a[1].line} accepts {list(a[0])} but '
+                    f'{b[1].var or b[1].label()} at {b[1].file}:{b[1].line} accepts {list(b[0])} (form, line comment may span lines): the same comment is '
+                    f'read differently depending on where it stands, so adding it changes more than `comment` attributes', node=_N(b[1]), file=b[1].file)
+        else:
+            col.ok('C14-inert', 'comment-token:same-everywhere', f'all {ntok} comment token occurrences accept the same comment language')
+        for forms, g in descs.items():
+            spans = [f for f in forms if f[0] == 'line' and f[1]]
+            col.check(not spans, 'C14-inert', f'comment-token:{g.module.split(".")[-1]}@{g.line}:line-comment-single-line',
+                      'a `//` comment covers exactly the rest of its line', f'the comment token at {g.file}:{g.line} lets a `//` comment swallow the next line '
+                      f'(line continuation): adding such a comment removes the following element from the parsed database', node=_N(g), file=g.file)
     guarded(col, 'C14-inert', 'inertness', inert)
 
 
